@@ -98,8 +98,9 @@ def run(ctx):
     extra = ce.random_runs(rng, 12000 if ctx.tier == "thorough" else 600, ["kmedoids", "hybrid"],
                            max_n=30 if ctx.tier == "thorough" else 14)
     ctx.exhaustive = False
-    if ctx.tier == "quick" and len(runs) > 12000:      # deterministic, seed-rotated subsample
-        stride = -(-len(runs) // 12000)
+    cap = 12000 if ctx.tier == "quick" else 60000       # (thorough: five times the quick share; the full product of the
+    if len(runs) > cap:                                 # thorough scopes is hundreds of thousands of runs -- hours)
+        stride = -(-len(runs) // cap)
         ctx.notes["runs_enumerated"] = len(runs)
         runs = runs[ctx.seed % stride::stride]
         ctx.exhaustive = False
